@@ -25,6 +25,9 @@ claimed = {
  "C05": ("partial evaluation of the Batch converter's operator cells, sibling agreement with the Bash converter's accept/reject table, Batch scanner for comparison operand quoting in all templates incl. helper bodies, allocator discipline for labels and loop flags",
          "cmd.exe cannot run here: only structural clauses are decided (operator table, numeric comparison operand form, label/flag allocation).",
          "Trusts the Batch lexical scanner and the admissible-operator table; cmd semantics (string vs numeric IF comparison) taken from documentation.", "§3 C05"),
+ "C10": ("enumeration of compiler-owned names from the extracted templates of both converters (name positions found lexically: assignment targets, expansions, labels, command words) intersected with the user identifier language read from the lexer's regex syntax trees and keyword table; emission-scheme disjointness decided at template level",
+         "Decides, per compiler-owned name pattern, whether a legal user identifier can spell it while user names are emitted unchanged into the same namespace. On the pinned tree every pattern collides (recorded findings); any new or changed pattern is a new violation.",
+         "A parser-side reservation check would not be recognised (stated in the evidence); environment beyond PATH/IFS not covered.", "§3 C10"),
 }
 na_reason = {
  "C15": "value-level agreement of a TypeShell library executed by a shell with Go's strings package over all arguments; no clause of it is visible in the shape of the Go sources or of std/strings.tsh; static analysis (this task's technique family) cannot address it",
